@@ -72,9 +72,23 @@ def coq_files():
     return out
 
 
+def gen_coqproject():
+    """_CoqProject is derived from the directory contents (so adding a file needs no shared edit)."""
+    dirs = ["lib", "model", "proofs", "props", "gen"]
+    lines = ["-Q %s GS" % d for d in dirs]
+    for d in dirs:
+        for f in sorted(glob.glob(os.path.join(COQ, d, "*.v"))):
+            lines.append(os.path.relpath(f, COQ))
+    txt = "\n".join(lines) + "\n"
+    cp = os.path.join(COQ, "_CoqProject")
+    if not os.path.exists(cp) or open(cp).read() != txt:
+        open(cp, "w").write(txt)
+
+
 def coq_build():
     """Full .vo build of the development (no -vos).  Returns (ok, log, failed_files)."""
     with Lock("coq"):
+        gen_coqproject()
         mk = os.path.join(COQ, "Makefile")
         cp = os.path.join(COQ, "_CoqProject")
         if not os.path.exists(mk) or os.path.getmtime(mk) < os.path.getmtime(cp):
@@ -168,33 +182,32 @@ def count_obligations(files):
 # --------------------------------------------------------------------------- extraction / OCaml
 
 def ocaml_build(drivers):
-    """Extract the models and build the named OCaml drivers into build/bin/<name>_model."""
+    """For each driver d: extract coq/extract/d.v (-> m_d.ml), build ocaml/d.ml into build/bin/d_model."""
     with Lock("ocaml"):
         ex = os.path.join(COQ, "extract")
-        ml = os.path.join(ex, "gsmodel.ml")
         srcs = [os.path.join(COQ, f + "o") for f in coq_files() if f.startswith(("model/", "lib/"))]
-        srcs.append(os.path.join(ex, "Extract.v"))
-        newest = max(os.path.getmtime(s) for s in srcs if os.path.exists(s))
-        if not os.path.exists(ml) or os.path.getmtime(ml) < newest:
-            fl = coq_flags()
-            fl = [os.path.join("..", x) if i % 3 == 1 else x for i, x in enumerate(fl)]
-            rc, out = sh(["timeout", "600", "coqc"] + fl + ["Extract.v"], cwd=ex)
-            if rc != 0:
-                return False, "extraction failed:\n" + out
-        od = os.path.join(BUILD, "ocaml")
-        os.makedirs(od, exist_ok=True)
+        newest_vo = max([os.path.getmtime(s) for s in srcs if os.path.exists(s)] + [0])
         os.makedirs(BIN, exist_ok=True)
         log = ""
         for d in drivers:
+            ml = os.path.join(ex, "m_%s.ml" % d)
+            exv = os.path.join(ex, d + ".v")
+            if not os.path.exists(ml) or os.path.getmtime(ml) < max(newest_vo, os.path.getmtime(exv)):
+                fl = coq_flags()
+                fl = [os.path.join("..", x) if i % 3 == 1 else x for i, x in enumerate(fl)]
+                rc, out = sh(["timeout", "600", "coqc"] + fl + [d + ".v"], cwd=ex)
+                if rc != 0:
+                    return False, "extraction failed for %s:\n%s" % (d, out)
             exe = os.path.join(BIN, d + "_model")
             deps = [ml, os.path.join(VERIF, "ocaml", "util.ml"), os.path.join(VERIF, "ocaml", d + ".ml")]
             if os.path.exists(exe) and all(os.path.getmtime(exe) >= os.path.getmtime(x) for x in deps):
                 continue
-            dd = os.path.join(od, d)
+            dd = os.path.join(BUILD, "ocaml", d)
             os.makedirs(dd, exist_ok=True)
-            for x in [ml, ml + "i"] + deps[1:]:
-                sh(["cp", x, dd])
-            rc, out = sh(["ocamlfind", "ocamlopt", "-O3", "-w", "-a", "gsmodel.mli", "gsmodel.ml",
+            sh(["cp", ml, os.path.join(dd, "model.ml")])
+            sh(["cp", ml + "i", os.path.join(dd, "model.mli")])
+            sh(["cp", deps[1], deps[2], dd])
+            rc, out = sh(["ocamlfind", "ocamlopt", "-O3", "-w", "-a", "model.mli", "model.ml",
                           "util.ml", d + ".ml", "-o", exe], cwd=dd)
             log += out
             if rc != 0:
@@ -322,7 +335,12 @@ def proof_leg(run, prop_file, proof_files, trusted_extra=()):
     tb = ["Coq 8.16.1 kernel (coqc); vm_compute used, native_compute not used",
           "no Axiom/Parameter/Admitted/admit in the development (audited by grep on every run)"]
     tb += list(trusted_extra)
-    if not ok:
+    mine = set([prop_file] + [f for f in proof_files])
+    # a property is affected by a failed file only if it depends on it (declared files + gen/)
+    relevant = [f for f in failed if f in mine or f.startswith("gen/") or f in ("<make>", "_CoqProject")]
+    missing = [f for f in mine if not os.path.exists(os.path.join(COQ, f + "o"))]
+    if relevant or missing:
+        failed = sorted(set(relevant + missing))
         cov["discharged"] = 0
         cov["trusted_base"] = tb
         cov["build_failed"] = failed
@@ -330,6 +348,8 @@ def proof_leg(run, prop_file, proof_files, trusted_extra=()):
                       "Coq build failed: the theorems of %s are no longer checked (%s)" % (run.pid, ", ".join(failed)),
                       no_input_found=True)
         return False
+    if not ok:
+        run.notes.append("unrelated Coq files failed to build: %s" % ", ".join(failed))
     if hits:
         cov["discharged"] = 0
         cov["trusted_base"] = tb
